@@ -151,5 +151,13 @@ def replay(run, path):
         p = os.path.join(run.scratch, "replay.log")
         t = trace_one(run, exe, fi["kind"], p, fi["size"], None if fi.get("pre_len") is None else b"o" * fi["pre_len"], "replay")
         print("opens:", t["opens"][:3]); print("writes:", t["writes"][:8])
+        good = [o for o in t["opens"] if o[1] >= 0]
+        bad = (len(good) != 1 or "O_APPEND" not in good[0][0] or "O_TRUNC" in good[0][0] or len(t["writes"]) != 1
+               or t["writes"][0][1] != fi["size"] + 1 or bool(t["other"]))
+        print("REPRODUCED" if bad else "not reproduced: one append-mode open, one write of the whole record")
+        run.cleanup()
+        return 1 if bad else 0
+    if "writers" in fi:
+        print("stress finding (writers=%s records=%s size=%s): re-run ./check C17 quick" % (fi["writers"], fi["records"], fi["size"]))
     run.cleanup()
     return 0
